@@ -331,6 +331,10 @@ func CheckFormats(c *harness.Ctx, p *profile.Profile, o Opt) string {
 	if fmt.Sprint(wantTP) != fmt.Sprint(gotTP) {
 		return fmt.Sprintf("-topproto entries (name, file, line:col, address, flat, cum)\n  reference: %v\n  reported : %v", wantTP, gotTP)
 	}
+	// ---- callgrind: always at address granularity, one cost line per entry, one call record per edge
+	if msg := checkCallgrind(c, p, o, run); msg != "" {
+		return msg
+	}
 	// ---- call tree (dot): one node per distinct path
 	if o.CallTree {
 		return ""
@@ -392,6 +396,53 @@ func CheckFormats(c *harness.Ctx, p *profile.Profile, o Opt) string {
 		if indeg[x.DstID] > 1 {
 			return fmt.Sprintf("-dot -call_tree: node %s has more than one parent\n%s", x.DstID, out)
 		}
+	}
+	return ""
+}
+
+func checkCallgrind(c *harness.Ctx, p *profile.Profile, o Opt, run func(string, map[string]string) (string, string)) string {
+	if o.CallTree {
+		return "" // call-tree callgrind output is covered structurally by C18
+	}
+	out, e := run("callgrind", nil)
+	if e != "" {
+		return "-callgrind failed: " + e
+	}
+	_, nodes, err := parse.Callgrind(out)
+	if err != nil {
+		return fmt.Sprintf("-callgrind output unparseable: %v\n%s", err, out)
+	}
+	ro := o.RefOpts()
+	ro.Gran, ro.ObjNames = "addresses", true
+	rep := ref.Report(p, ro)
+	id := func(k ref.NodeKey) string { return fmt.Sprintf("%q %q @%x :%d", k.File, k.Name, k.Addr, k.Line) }
+	var want, got, wantE, gotE []string
+	for _, en := range rep.Entries {
+		if en.Shown() {
+			want = append(want, fmt.Sprintf("%q %s self=%d", en.Key.Obj, id(en.Key), en.FlatV()))
+		}
+	}
+	for k, w := range rep.Edges {
+		if rep.Entries[k[0]].Shown() && rep.Entries[k[1]].Shown() {
+			wantE = append(wantE, fmt.Sprintf("%s -> %s = %d", id(k[0]), id(k[1]), w.V()))
+		}
+	}
+	for _, n := range nodes {
+		src := fmt.Sprintf("%q %q @%x :%d", n.Fl, n.Fn, n.Addr, n.Line)
+		got = append(got, fmt.Sprintf("%q %s self=%d", n.Ob, src, n.Self))
+		for _, cl := range n.Calls {
+			gotE = append(gotE, fmt.Sprintf("%s -> %q %q @%x :%d = %d", src, cl.Fl, cl.Fn, cl.Addr, cl.Line, cl.Cost))
+		}
+	}
+	sort.Strings(want)
+	sort.Strings(got)
+	sort.Strings(wantE)
+	sort.Strings(gotE)
+	if fmt.Sprint(want) != fmt.Sprint(got) {
+		return fmt.Sprintf("-callgrind cost lines (object, file, function, address, line, self cost)\n  reference: %v\n  reported : %v\n%s", want, got, out)
+	}
+	if fmt.Sprint(wantE) != fmt.Sprint(gotE) {
+		return fmt.Sprintf("-callgrind call records (caller -> callee = inclusive cost)\n  reference: %v\n  reported : %v\n%s", wantE, gotE, out)
 	}
 	return ""
 }
@@ -509,7 +560,7 @@ func init() {
 	harness.Register(&harness.Check{
 		ID:    "C04",
 		Level: "exploration",
-		Rule: "report-class profiles (recursion, inlined multi-line locations shared between samples, empty stacks, unsymbolized and unmapped frames, negative values, 1-3 count-typed sample types, string and unitless numeric labels) x 3 random points of {granularity 5} x noinlines x showcolumns x sample_index x mean x tagroot/tagleaf; every point rendered through the real driver as -top, -tree, -peek=., -dot, -traces, -topproto and -dot -call_tree (trim=false), and for every fourth profile also through the web UI's /top view and parsed independently; " +
+		Rule: "report-class profiles (recursion, inlined multi-line locations shared between samples, empty stacks, unsymbolized and unmapped frames, negative values, 1-3 count-typed sample types, string and unitless numeric labels) x 3 random points of {granularity 5} x noinlines x showcolumns x sample_index x mean x tagroot/tagleaf; every point rendered through the real driver as -top, -tree, -peek=., -dot, -traces, -topproto, -callgrind (decoded with pprof's name and position compression: one cost line per address-level entry with object, file, function, address, line and self cost; one call record per edge with its inclusive cost) and -dot -call_tree (trim=false), and for every fourth profile also through the web UI's /top view and parsed independently; " +
 			"oracle: reference report over the frames view (flat = leaf sum, cum = once per sample, edge = adjacency once per sample, total = sum |v|, mean quotients), compared as multisets of (name, flat, cum) and (caller, callee, weight); legend 'accounting for' = sum of flat shown. non-trivial = at least 2 samples; distinct = profile shape signature",
 		Assumptions:   []string{"count-typed values so printed numbers are exact integers", "entries are matched by printable name (names with leading/trailing/double blanks or newlines are left to C18)", "a single source is not merged by pprof, so -traces is compared sample by sample"},
 		Parts:         []harness.Part{{Name: "formats", Quick: 4000, Thor: 150000, Run: run}},
